@@ -149,6 +149,7 @@ META = {
     "C09-poll-ignores-pollerr-only-wakeup": ("C09", "the condition wait goes back into poll when the wake-up lacks the requested event; needs POLLERR/POLLHUP alone (peer reset), then the call spins forever"),
     "C10-new-from-fd-leaves-fd-blocking": ("C10", "p_socket_new_from_fd no longer switches the descriptor to non-blocking; needs an accepted or foreign blocking descriptor used with a timeout or in non-blocking mode"),
     "C11-sha1-bit-length-32bit-shift": ("C11", "SHA-1 finish computes `len_low << 3` in 32 bits before widening; needs a message of 2^29 bytes or more"),
+    "C12-insert-ignores-null-value": ("C12", "p_tree_insert returns early for a NULL value; needs a tree used as a set (NULL values) - the count, traversal and remove result are wrong while lookup looks right"),
     "C14-bst-remove-skips-null-key-notifier": ("C14", "BST remove skips the destroy notifiers when the key or value is NULL; needs a NULL key or value stored with notifiers installed"),
     "C15-lookup-rejects-null-key": ("C15", "lookup returns (ppointer) -1 for a NULL key before searching; needs a NULL key inserted and then looked up"),
     "C16-key-before-first-section-null-deref": ("C16", "operator precedence lets a `key = value` line before the first section through with section == NULL; needs such a line, and the parameter is appended to a NULL section"),
